@@ -28,7 +28,10 @@ func (c *wsNetConn) Write(b []byte) (n int, err error) {
 }
 
 func (c *wsNetConn) Close() error {
-	panic("unimplemented")
+	// called by websocket.Upgrader when it aborts the handshake
+	// (for instance when the peer sends data right behind its handshake request).
+	// the underlying connection is owned, and closed, by ServerConn.
+	return nil
 }
 
 func (c *wsNetConn) LocalAddr() net.Addr {
